@@ -3,8 +3,8 @@
            no sweep is presented as an unbounded claim — the two 400-year sweeps inside Proofs/CalendarP.v are lifted to Z by the
            proved periodicity lemmas era_lift_days / era_lift_years.
    Part B: theorems about the ENGINE's macros as transcribed in Model/Period.v Part 2 (`*_impl`; tied to the real SQL on every run by
-           harness/props/c08.py, exhaustively over 1900-2100): where they compute the calendar (`*_ok`, macro_shift_partial) and where
-           they do not (`*_refuted`, concrete witnesses that are replayed on the real engine). *)
+           harness/props/c08.py, exhaustively over 1900-2100 in the thorough tier): where they compute the calendar (`*_ok`, incl. vtl_tp_shift after
+           fix 1bd5380) and where they do not (`*_refuted`: the fill_time_series step; `*_before_fix`: regression witnesses). *)
 From Coq Require Import ZArith Bool List.
 Import ListNotations.
 From VTL Require Import Base.Calendar Proofs.CalendarP Model.Period Proofs.PeriodP.
@@ -159,49 +159,47 @@ Theorem C08_macro_datediff_dateadd_ok : forall a b z n u, period_valid a = true 
 Proof. intros a b z n u Va Vb. split; [apply datediff_impl_ok; assumption | apply dateadd_impl_ok]. Qed.
 Print Assumptions C08_macro_datediff_dateadd_ok.
 
-(* vtl_tp_shift: the full statement holds for A, S, Q, M (every year, every shift) ... *)
-Theorem C08_macro_shift_partial : forall p n, period_valid p = true ->
-  (p_ind p = IA \/ p_ind p = IS \/ p_ind p = IQ \/ p_ind p = IM) -> shift_impl p n = shift p n.
-Proof. exact macro_shift_partial. Qed.
-Print Assumptions C08_macro_shift_partial.
+(* vtl_tp_shift (after fix 1bd5380 in /repo: W and D go through the calendar): the FULL statement, every indicator, every year,
+   every shift; hence inverse and injectivity (no duplicate identifiers) hold for the engine's macro itself *)
+Theorem C08_macro_shift_ok : forall p n, period_valid p = true -> shift_impl p n = Some (shift p n).
+Proof. exact macro_shift_ok. Qed.
+Print Assumptions C08_macro_shift_ok.
 
-(* ... and for W, D only while the shifted number stays within 1..52 / 1..365 of the same year *)
-Theorem C08_macro_shift_within_year : forall p n, period_valid p = true ->
-  1 <= p_num p + n <= period_limit_impl (p_ind p) -> shift_impl p n = shift p n.
-Proof. exact macro_shift_within_year. Qed.
-Print Assumptions C08_macro_shift_within_year.
+Theorem C08_macro_shift_inverse : forall p n, period_valid p = true ->
+  opt_bind (shift_impl p n) (fun q => shift_impl q (- n)) = Some p.
+Proof. exact macro_shift_inverse. Qed.
+Print Assumptions C08_macro_shift_inverse.
 
-(* ... what is missing: week 53 and day 366.  vtl_period_limit is not the calendar's number of periods *)
+Theorem C08_macro_shift_injective : forall p q n, period_valid p = true -> period_valid q = true ->
+  shift_impl p n = shift_impl q n -> p = q.
+Proof. exact macro_shift_injective. Qed.
+Print Assumptions C08_macro_shift_injective.
+
+(* vtl_period_limit (still used by the S/Q/M branch, where it is right, and by fill_time_series, where it is not) is not the
+   calendar's number of periods for W and D *)
 Theorem C08_macro_period_limit_refuted :
   (exists y, period_limit_impl IW <> periods_in_year IW y) /\ (exists y, period_limit_impl ID <> periods_in_year ID y).
 Proof. split; exists 2020; vm_compute; discriminate. Qed.
 Print Assumptions C08_macro_period_limit_refuted.
 
-(* the macro does not compute the calendar shift, is not injective on valid periods (duplicate identifiers), and n then -n is
-   not the identity: witnesses 2020-W53 / 2021-W01 shifted by 1, 2020-D366 / 2021-D001 shifted by 1 *)
-Theorem C08_macro_shift_refuted :
-  (exists p n, period_valid p = true /\ shift_impl p n <> shift p n) /\
-  (exists p q n, period_valid p = true /\ period_valid q = true /\ p <> q /\ shift_impl p n = shift_impl q n) /\
-  (exists p n, period_valid p = true /\ shift_impl (shift_impl p n) (- n) <> p).
+(* REGRESSION WITNESSES: the macro as it was before the fix (constant limits 52 / 365 for W / D) did not compute the calendar shift,
+   was not injective on valid periods (duplicate identifiers) and n then -n was not the identity.  The same inputs are in
+   /verif/corpus/C08 and must now PASS on the engine. *)
+Theorem C08_shift_before_fix_refuted :
+  (exists p n, period_valid p = true /\ shift_before_fix p n <> shift p n) /\
+  (exists p q n, period_valid p = true /\ period_valid q = true /\ p <> q /\ shift_before_fix p n = shift_before_fix q n) /\
+  (exists p n, period_valid p = true /\ shift_before_fix (shift_before_fix p n) (- n) <> p) /\
+  (exists p q n, p_ind p = ID /\ period_valid p = true /\ period_valid q = true /\ p <> q /\ shift_before_fix p n = shift_before_fix q n).
 Proof.
-  split; [|split].
+  split; [|split; [|split]].
   - exists (mkP 2020 IW 53), 1. split; [reflexivity | vm_compute; discriminate].
   - exists (mkP 2020 IW 53), (mkP 2021 IW 1), 1. split; [reflexivity|]. split; [reflexivity|]. split; [discriminate | reflexivity].
   - exists (mkP 2020 IW 53), 1. split; [reflexivity | vm_compute; discriminate].
-Qed.
-Print Assumptions C08_macro_shift_refuted.
-
-Theorem C08_macro_shift_refuted_days :
-  (exists p n, p_ind p = ID /\ period_valid p = true /\ shift_impl p n <> shift p n) /\
-  (exists p q n, p_ind p = ID /\ period_valid p = true /\ period_valid q = true /\ p <> q /\ shift_impl p n = shift_impl q n).
-Proof.
-  split.
-  - exists (mkP 2020 ID 366), 1. split; [reflexivity|]. split; [reflexivity | vm_compute; discriminate].
   - exists (mkP 2020 ID 366), (mkP 2021 ID 1), 1. repeat (split; [reflexivity|]). split; [discriminate | reflexivity].
 Qed.
-Print Assumptions C08_macro_shift_refuted_days.
+Print Assumptions C08_shift_before_fix_refuted.
 
-(* the step used by fill_time_series never produces week 53 / day 366 *)
+(* STILL OPEN: the step used by fill_time_series (_TP_NEXT_PERIOD, constant limits) never produces week 53 / day 366 *)
 Theorem C08_macro_next_refuted :
   exists p, period_valid p = true /\ period_valid (next_period p) = true /\ next_impl p <> next_period p.
 Proof. exists (mkP 2020 IW 52). split; [reflexivity|]. split; [reflexivity | vm_compute; discriminate]. Qed.
